@@ -494,13 +494,13 @@ def compare(eng, op, a, b, st, fr, k):
             # ordering on a dynamic value: ints compare, anything else is a TypeError
             d, o, flip = (a, b, False) if isinstance(a, SDyn) else (b, a, True)
             if isinstance(o, (SInt, SBool)):
-                x, y = PyVal.ival(d.t), as_int(o)
+                x, y = z3.If(PyVal.is_BoolV(d.t), z3.If(PyVal.bval(d.t), 1, 0), PyVal.ival(d.t)), as_int(o)
                 if flip:
                     x, y = y, x
                 res = {ast.Lt: x < y, ast.LtE: x <= y, ast.Gt: x > y, ast.GtE: x >= y}[type(op)]
                 if st.spec:
                     return k(st, res)
-                return eng.branch(st, PyVal.is_IntV(d.t), lambda s: k(s, res), lambda s: eng.raise_new(s, "TypeError"), "dyn-order")
+                return eng.branch(st, z3.Or(PyVal.is_IntV(d.t), PyVal.is_BoolV(d.t)), lambda s: k(s, res), lambda s: eng.raise_new(s, "TypeError"), "dyn-order")
         raise EngineError(f"ordering between {a!r} and {b!r}")
     if isinstance(op, (ast.In, ast.NotIn)):
         def fin(s, c):
@@ -852,6 +852,12 @@ def list_comp(eng, e, st, fr, k):
             s.spec = saved_spec
         elt, keep = holder["elt"], holder["keep"]
         okind = elt.kind
+        # [b for b in xs if isinstance(b, T)]: the result is statically a list of T
+        if (len(g.ifs) == 1 and isinstance(e.elt, ast.Name) and isinstance(g.target, ast.Name) and e.elt.id == g.target.id
+                and isinstance(g.ifs[0], ast.Call) and isinstance(g.ifs[0].func, ast.Name) and g.ifs[0].func.id == "isinstance"
+                and isinstance(g.ifs[0].args[0], ast.Name) and g.ifs[0].args[0].id == g.target.id
+                and isinstance(g.ifs[0].args[1], ast.Name) and g.ifs[0].args[1].id in eng.repo.classes):
+            okind = "ref:" + g.ifs[0].args[1].id
         fam = elem_heapkey(okind)
         arr = fresh("comp", z3.ArraySort(IntS, FAM_SORT[fam]))
         et = eng.coerce(s, elt, okind)
@@ -937,8 +943,13 @@ def dict_comp(eng, e, st, fr, k):
         cnt = fresh("dcn", IntS)
         s.assume(z3.And(cnt >= 0, cnt <= n))
         h.set(("dn", kf), z3.Store(h.get(("dn", kf)), d.t, cnt))
-        h.set(("dkeys", kf), z3.Store(h.get(("dkeys", kf)), d.t, fresh("dckeys", z3.ArraySort(IntS, FAM_SORT[kf]))))
-        s.ghost.setdefault("dictcomp", {})[d.t.get_id()] = (it, last)
+        okeys = fresh("dckeys", z3.ArraySort(IntS, FAM_SORT[kf]))
+        opos = fresh("dcpos", z3.ArraySort(FAM_SORT[kf], IntS))
+        t_ = z3.Int("t!dc")
+        # the order array lists exactly the present keys, each once
+        s.assume(z3.ForAll([t_], z3.Implies(z3.And(0 <= t_, t_ < cnt), z3.And(z3.Select(has, z3.Select(okeys, t_)), z3.Select(opos, z3.Select(okeys, t_)) == t_))))
+        s.assume(z3.ForAll([kx], z3.Implies(z3.Select(has, kx), z3.And(0 <= z3.Select(opos, kx), z3.Select(opos, kx) < cnt, z3.Select(okeys, z3.Select(opos, kx)) == kx))))
+        h.set(("dkeys", kf), z3.Store(h.get(("dkeys", kf)), d.t, okeys))
         return k(s, d)
     return eng.ev(g.iter, st, fr, got_iter)
 
@@ -1124,7 +1135,12 @@ def _str_of(eng, e, st, fr, k):
     return eng.ev(e.args[0], st, fr, lambda s, v: k(s, SStr(format_value(eng, s, v))))
 
 
-SPECIAL_FORMS = {"joined": _joined, "truthy": _truthy, "isint": _isint, "isnone": _isnone,
+def _nlines(eng, e, st, fr, k):
+    """nlines(s) == len(s.splitlines())"""
+    return eng.ev(e.args[0], st, fr, lambda s, v: k(s, SInt(U["nlines"](v.t))))
+
+
+SPECIAL_FORMS = {"nlines": _nlines, "joined": _joined, "truthy": _truthy, "isint": _isint, "isnone": _isnone,
                  "dict_key_at": _dict_key_at, "str_of": _str_of, "forall": _quant("forall"), "exists": _quant("exists"), "implies": _implies, "old": _old,
                  "fresh": _fresh, "allocated": _allocated, "unchanged": _unchanged, "isstr": _isstr,
                  "sval": _sval, "ival": _ival, "cls_is": _cls_is, "same": _same_obj, "as_ref": _as_ref}
